@@ -49,6 +49,8 @@ pub enum Stage {
     /// Harness block moving one frame of k per call and answering with a wait
     /// from the same call (bool: rate-decreasing variant, k in -> 1 out).
     Framed(usize, bool),
+    /// Harness pass-through answering `Pending` n times before each move.
+    Lazy(usize),
     /// Access-code correlator (bits -> bits).
     Correlate(Vec<u8>, usize),
     /// Tee -> (data, trigger = data * k) -> BurstTagger -> StreamToPdu ->
@@ -117,6 +119,9 @@ fn gen_stage(src: &mut Src, ty: Ty, cap_bytes: usize, allow_diamond: bool) -> (S
             if src.chance(1, 8) {
                 return (Stage::Framed(*src.pick(&[4usize, 7, 16, 64, 500]), src.chance(1, 3)), ty);
             }
+            if src.chance(1, 12) {
+                return (Stage::Lazy(src.range(1, 3)), ty);
+            }
             match src.below(n + allow_diamond as usize) {
                 0 => (Stage::XorConst(if ty == Ty::Bits { src.below(2) as u8 } else { src.below(256) as u8 }), ty),
                 1 => (Stage::DelayS(src.below(cap(1) / 4)), ty),
@@ -150,6 +155,7 @@ fn gen_stage(src: &mut Src, ty: Ty, cap_bytes: usize, allow_diamond: bool) -> (S
             }
         }
         Ty::F32 | Ty::C32 if src.chance(1, 9) => (Stage::Framed(*src.pick(&[4usize, 7, 16, 64, 500]), src.chance(1, 3)), ty),
+        Ty::F32 | Ty::C32 if src.chance(1, 12) => (Stage::Lazy(src.range(1, 3)), ty),
         Ty::F32 => match src.below(9 + 5 * allow_diamond as usize) {
             0 => (Stage::AddConstF((src.below(41) as f32 - 20.0) * 0.25), ty),
             1 => (Stage::MulConstF((src.below(41) as f32 - 20.0) * 0.125), ty),
@@ -524,6 +530,18 @@ fn build_stage_x(s: &Stage, input: St, blocks: &mut Vec<Box<dyn Block + Send>>, 
             fails.push(f);
             push!(b, o, C32)
         }
+        (Stage::Lazy(k), St::U8(r)) => {
+            let (b, o) = Lazy::new(r, *k);
+            push!(b, o, U8)
+        }
+        (Stage::Lazy(k), St::F32(r)) => {
+            let (b, o) = Lazy::new(r, *k);
+            push!(b, o, F32)
+        }
+        (Stage::Lazy(k), St::C32(r)) => {
+            let (b, o) = Lazy::new(r, *k);
+            push!(b, o, C32)
+        }
         (Stage::Framed(k, f), St::U8(r)) => {
             let (b, o) = Framed::new(r, *k, *f);
             push!(b, o, U8)
@@ -696,7 +714,7 @@ pub fn reference_execute(recipe: &Recipe, big_bytes: usize) -> Result<Vec<u8>, S
             }
             let name = b.block_name().to_string();
             match b.work() {
-                Ok(BlockRet::Again) => again = true,
+                Ok(BlockRet::Again) | Ok(BlockRet::Pending) => again = true,
                 Ok(BlockRet::EOF) => {
                     eof[i] = true;
                     again = true;
